@@ -62,9 +62,12 @@ Proof. exact announcement_reaches_everyone. Qed.
 Print Assumptions C14_announcement_refreshes_everyone.
 
 (** the run hypothesis holds for every schedule of quiet steps without
-    Forget / Advance *)
+    Forget / Advance in which no withdrawal of the same origin is handed over
+    ([nw_run], executable; a withdrawal removes the origin's CIDR routes
+    whatever their sequence, so a delayed one would undo the refresh) *)
 Theorem C14_quiet_run_without_expiry_steps : forall cf o sq ops s,
   Forall (quiet_op o) ops -> forallb (fun op => negb (expiry_op op)) ops = true ->
+  nw_run cf o s ops = true ->
   quiet_run cf o sq s ops.
 Proof. exact quiet_run_syntactic. Qed.
 Print Assumptions C14_quiet_run_without_expiry_steps.
@@ -96,7 +99,7 @@ Example C14_example_refresh_after_replay :
   map (fun e => (kind_code (e_kind e), e_id e, e_seq e, e_upd e)) (filter (fun e => e_origin e =? 0) (entries_of s 2))
   = [(0, 1, 3, 120); (3, 0, 3, 120)].
 Proof.
-  split; [apply quiet_run_syntactic; [unfold rf_ops; repeat (apply Forall_cons; [exact I|]); apply Forall_nil|reflexivity]|].
+  split; [apply quiet_run_syntactic; [unfold rf_ops; repeat (apply Forall_cons; [exact I|]); apply Forall_nil|reflexivity|reflexivity]|].
   split; [vm_compute; reflexivity|]. split; [vm_compute; reflexivity|].
   split; [|split; vm_compute; reflexivity].
   apply (conn_step 3 0 _ 1 2); [apply (conn_step 3 0 _ 0 1); [apply conn_origin; vm_compute; auto| |vm_compute; auto]| |vm_compute; auto];
